@@ -140,6 +140,13 @@ def run_case(case):
 
             # ---------------- direct construction with independently evaluated values
             ev, user0 = W.evaluator(_env_for_eval(case, env), otable)
+            # fill the oracle tables for every expression, also those the
+            # reference construction does not reach
+            for nid in range(len(case["heap"])):
+                try:
+                    ev(nid)
+                except Exception:  # noqa: BLE001
+                    pass
 
             def user(nid, _u=user0):
                 try:
